@@ -28,11 +28,40 @@ impl PartialOrdSpecImpl<ByteUnit> for usize {
         Some(if (*self as int) < o.0 as int { Ordering::Less } else if *self as int == o.0 as int { Ordering::Equal } else { Ordering::Greater })
     }
 }
-/// ubyte::ToByteUnit on integer literals: `n.megabytes()` = n * 10^6 bytes
-pub trait ToByteUnit: Sized { spec fn as_int(self) -> int; fn megabytes(self) -> (r: ByteUnit) ensures r.0 as int == self.as_int() * 1_000_000; }
+/// ubyte::ToByteUnit on integer literals: `n.megabytes()` = n * 10^6 bytes, etc. (only `megabytes` is called by the
+/// unchanged code; the other units are the API neighbourhood).  Negative / overflowing inputs saturate in ubyte: not specified here.
+pub trait ToByteUnit: Sized {
+    spec fn as_int(self) -> int;
+    fn bytes(self) -> (r: ByteUnit) ensures 0 <= self.as_int() <= u64::MAX ==> r.0 as int == self.as_int();
+    fn kilobytes(self) -> (r: ByteUnit) ensures 0 <= self.as_int() * 1_000 <= u64::MAX ==> r.0 as int == self.as_int() * 1_000;
+    fn kibibytes(self) -> (r: ByteUnit) ensures 0 <= self.as_int() * 1_024 <= u64::MAX ==> r.0 as int == self.as_int() * 1_024;
+    fn megabytes(self) -> (r: ByteUnit) ensures 0 <= self.as_int() * 1_000_000 <= u64::MAX ==> r.0 as int == self.as_int() * 1_000_000;
+    fn mebibytes(self) -> (r: ByteUnit) ensures 0 <= self.as_int() * 1_048_576 <= u64::MAX ==> r.0 as int == self.as_int() * 1_048_576;
+    fn gigabytes(self) -> (r: ByteUnit) ensures 0 <= self.as_int() * 1_000_000_000 <= u64::MAX ==> r.0 as int == self.as_int() * 1_000_000_000;
+    fn gibibytes(self) -> (r: ByteUnit) ensures 0 <= self.as_int() * 1_073_741_824 <= u64::MAX ==> r.0 as int == self.as_int() * 1_073_741_824;
+}
 impl ToByteUnit for i32 {
     open spec fn as_int(self) -> int { self as int }
+    #[verifier::external_body] fn bytes(self) -> (r: ByteUnit) { unimplemented!() }
+    #[verifier::external_body] fn kilobytes(self) -> (r: ByteUnit) { unimplemented!() }
+    #[verifier::external_body] fn kibibytes(self) -> (r: ByteUnit) { unimplemented!() }
     #[verifier::external_body] fn megabytes(self) -> (r: ByteUnit) { unimplemented!() }
+    #[verifier::external_body] fn mebibytes(self) -> (r: ByteUnit) { unimplemented!() }
+    #[verifier::external_body] fn gigabytes(self) -> (r: ByteUnit) { unimplemented!() }
+    #[verifier::external_body] fn gibibytes(self) -> (r: ByteUnit) { unimplemented!() }
+}
+/// ubyte: `ByteUnit` compares with integers by number of bytes (API neighbourhood)
+impl PartialEq<i32> for ByteUnit { #[verifier::external_body] fn eq(&self, o: &i32) -> (r: bool) { unimplemented!() } }
+impl PartialEqSpecImpl<i32> for ByteUnit {
+    open spec fn obeys_eq_spec() -> bool { true }
+    open spec fn eq_spec(&self, o: &i32) -> bool { self.0 as int == *o as int }
+}
+impl PartialOrd<i32> for ByteUnit { #[verifier::external_body] fn partial_cmp(&self, o: &i32) -> (r: Option<Ordering>) { unimplemented!() } }
+impl PartialOrdSpecImpl<i32> for ByteUnit {
+    open spec fn obeys_partial_cmp_spec() -> bool { true }
+    open spec fn partial_cmp_spec(&self, o: &i32) -> Option<Ordering> {
+        Some(if (self.0 as int) < *o as int { Ordering::Less } else if self.0 as int == *o as int { Ordering::Equal } else { Ordering::Greater })
+    }
 }
 
 // ---- http: headers ---------------------------------------------------------------------------------
@@ -78,6 +107,21 @@ impl View for Bytes { type V = Seq<u8>; open spec fn view(&self) -> Seq<u8> { by
 #[verifier::external_body] pub struct Collected { _p: u8 }
 pub uninterp spec fn collected_view(c: &Collected) -> Seq<u8>;
 impl Collected { #[verifier::external_body] pub fn to_bytes(self) -> (r: Bytes) ensures r@ == collected_view(&self) { unimplemented!() } }
+/// `Collected::aggregate()` -> impl bytes::Buf (API neighbourhood, not called by the unchanged code):
+///   remaining() = everything not yet consumed; chunk() = the first CONTIGUOUS piece only (a prefix of any length);
+///   copy_to_bytes(n) consumes and returns the first n bytes.
+pub struct AggregatedBuf { pub rest: Ghost<Seq<u8>> }
+impl Collected {
+    #[verifier::external_body] pub fn aggregate(self) -> (r: AggregatedBuf) ensures r.rest@ == collected_view(&self) { unimplemented!() }
+}
+impl AggregatedBuf {
+    #[verifier::external_body] pub fn remaining(&self) -> (r: usize) ensures r == self.rest@.len() { unimplemented!() }
+    #[verifier::external_body] pub fn chunk(&self) -> (r: &[u8]) ensures r@.len() <= self.rest@.len(), r@ == self.rest@.take(r@.len() as int) { unimplemented!() }
+    #[verifier::external_body] pub fn copy_to_bytes(&mut self, n: usize) -> (r: Bytes)
+        requires n <= old(self).rest@.len()
+        ensures r@ == old(self).rest@.take(n as int), final(self).rest@ == old(self).rest@.skip(n as int)
+    { unimplemented!() }
+}
 /// Box<dyn std::error::Error + Send + Sync>
 #[verifier::external_body] pub struct BoxError { _p: u8 }
 pub uninterp spec fn is_error_type<T>(e: &BoxError) -> bool;
